@@ -6,8 +6,12 @@ import sys
 import time
 
 VERIF = os.path.dirname(os.path.dirname(os.path.abspath(__file__)))
-EVID = os.path.join(VERIF, "evidence")
-REPLAYS = os.path.join(VERIF, "replays")
+# evidence describes runs against /repo itself; a run pointed at another tree (VERIF_REPO: seeded or
+# behaviour-preserving variants in scratch worktrees) keeps its evidence and replays next to that tree
+_ALT = os.environ.get("VERIF_REPO")
+_OUT = VERIF if not _ALT or os.path.realpath(_ALT) == "/repo" else os.path.realpath(_ALT) + ".verif-out"
+EVID = os.path.join(_OUT, "evidence")
+REPLAYS = os.path.join(_OUT, "replays")
 KF_PATH = os.path.join(VERIF, "known_findings.json")
 
 
